@@ -22,6 +22,7 @@ for id in "$@"; do
   vio=$(grep '^VIOLATION' "$V/out-$id.txt" | head -3 | tr '\n' ';')
   echo "SEEDED $tag $id rc=$rc violations=$n $vio"
   mkdir -p /verif/build/seeded-logs; cp "$V/out-$id.txt" "/verif/build/seeded-logs/$tag-$id.txt"
+  rm -rf "/verif/build/seeded-logs/$tag-$id-replays"; [ -d "$V/replays/$id" ] && cp -r "$V/replays/$id" "/verif/build/seeded-logs/$tag-$id-replays"
 done
 cd /
 git -C /repo worktree remove --force "$R"
